@@ -21,12 +21,22 @@ var (
 // n successful Put calls on c. It returns a boolean indicating
 // whether n slots were made available.
 func Free(n int, c Cache) bool {
+	if f, ok := c.(freer); ok {
+		return f.free(n)
+	}
 	empty := c.Cap() - c.Len()
 	if n <= empty {
 		return true
 	}
 	c.Drop(n - empty)
 	return c.Cap()-c.Len() >= n
+}
+
+// freer is implemented by the caches of this package. They make
+// room while holding their own lock, so that Free is a single
+// operation on a cache that other goroutines are using.
+type freer interface {
+	free(n int) bool
 }
 
 // Cache is an extension of bgzf.Cache that allows inspection
@@ -127,6 +137,15 @@ func (c *LRU) Drop(n int) {
 	c.mu.Lock()
 	c.drop(n)
 	c.mu.Unlock()
+}
+
+func (c *LRU) free(n int) bool {
+	c.mu.Lock()
+	defer c.mu.Unlock()
+	if empty := c.cap - len(c.table); n > empty {
+		c.drop(n - empty)
+	}
+	return c.cap-len(c.table) >= n
 }
 
 func (c *LRU) drop(n int) {
@@ -251,6 +270,15 @@ func (c *FIFO) Drop(n int) {
 	c.mu.Unlock()
 }
 
+func (c *FIFO) free(n int) bool {
+	c.mu.Lock()
+	defer c.mu.Unlock()
+	if empty := c.cap - len(c.table); n > empty {
+		c.drop(n - empty)
+	}
+	return c.cap-len(c.table) >= n
+}
+
 func (c *FIFO) drop(n int) {
 	for ; n > 0 && len(c.table) > 0; n-- {
 		remove(c.root.prev, c.table)
@@ -369,6 +397,15 @@ func (c *Random) Drop(n int) {
 	c.mu.Lock()
 	c.drop(n)
 	c.mu.Unlock()
+}
+
+func (c *Random) free(n int) bool {
+	c.mu.Lock()
+	defer c.mu.Unlock()
+	if empty := c.cap - len(c.table); n > empty {
+		c.drop(n - empty)
+	}
+	return c.cap-len(c.table) >= n
 }
 
 func (c *Random) drop(n int) {
